@@ -30,4 +30,36 @@ theorem mode_option_other (a : Args) (m : Nat) (hm : a.mode = some m) (hms : a.m
     (applyInfo a src ex).1.mode = (src.mode &&& (4294967295 - permMask)) ||| goPermOfUnix m := by
   simp [applyInfo, hs, hm, hms]
 
+/-- Under **every** option combination the options touch only their own field: name, link target,
+size and device numbers of a copied entry are the source's, whatever chown / mode / utime say. -/
+theorem options_keep_identity_fields (a : Args) (src : StatE) (ex : List (Path × Path)) :
+    (applyInfo a src ex).1.path = src.path ∧ (applyInfo a src ex).1.linkname = src.linkname ∧
+    (applyInfo a src ex).1.size = src.size ∧ (applyInfo a src ex).1.devmajor = src.devmajor ∧
+    (applyInfo a src ex).1.devminor = src.devminor := by
+  simp [applyInfo]
+
+/-- Every option that is absent leaves its field as the source has it, whatever the other options are. -/
+theorem absent_option_preserves (a : Args) (src : StatE) (ex : List (Path × Path)) :
+    (a.chown = none → (applyInfo a src ex).1.uid = src.uid ∧ (applyInfo a src ex).1.gid = src.gid) ∧
+    (a.mode = none → a.modeStr = none → (applyInfo a src ex).1.mode = src.mode) ∧
+    (a.utime = none → (applyInfo a src ex).2 = some src.mtime) := by
+  refine ⟨fun h => ?_, fun h1 h2 => ?_, fun h => ?_⟩
+  · simp [applyInfo, h]
+  · by_cases hs : src.isSymlink = true <;> simp [applyInfo, h1, h2, hs]
+  · simp [applyInfo, h]
+
+/-- The extended attributes of a copied entry do not depend on the options: every source attribute is
+carried, and an attribute the destination already had survives exactly when the source has no
+attribute of that name. -/
+theorem xattrs_source_wins (a : Args) (src : StatE) (ex : List (Path × Path)) (kv : Path × Path) :
+    kv ∈ (applyInfo a src ex).1.xattrs ↔ kv ∈ src.xattrs ∨ (kv ∈ ex ∧ ∀ s ∈ src.xattrs, s.1 ≠ kv.1) := by
+  simp [applyInfo, List.mem_append, List.mem_filter]
+
+/-- non-vacuity: chown + utime + mode together on a regular file, an attribute of the destination kept -/
+example : applyInfo { src := [], dst := [], chown := some (5, 6), utime := some 9, mode := some 420 }
+    { path := [97], mode := 493, uid := 1, gid := 2, size := 3, mtime := 4, linkname := [], devmajor := 0, devminor := 0,
+      xattrs := [([1], [2])] } [([1], [9]), ([3], [4])] =
+    ({ path := [97], mode := 420, uid := 5, gid := 6, size := 3, mtime := 4, linkname := [], devmajor := 0, devminor := 0,
+       xattrs := [([1], [2]), ([3], [4])] }, some 9) := by decide
+
 end Fsm.C13
